@@ -55,6 +55,11 @@ MODELS: list[tuple[str, list[str], list[tuple]]] = [
 def _evaluator_class(E):
     """The finite-domain evaluator of rules/c09_eval.py with two additions this rule needs (kept here: that module is not ours):
     `del x` / `del o.a` / `del d[k]`, and generator functions that change nothing, whose values are collected into a list."""
+    if hasattr(E, "EvalGen"):
+        # the evaluator runs generators itself (lazily, interleaved with their consumer) and knows `del`: nothing to add - and
+        # collecting eagerly on top of that would silently lose every yielded value
+        return E.Evaluator
+
     import ast
 
     from core.loader import own_nodes
@@ -322,7 +327,15 @@ def hierarchy_on_models(repo: Repo, graph_cls: ClassInfo, modules_param: str, im
                 created.append(g)
                 return g.native
 
-            models = {"networkx.DiGraph": factory, "networkx.classes.digraph.DiGraph": factory, "networkx.freeze": lambda args, kwargs: args[0] if args else E.POISON}
+            def flatten(args: list, kwargs: dict):
+                # itertools.chain.from_iterable: lazily, one inner iterable after the other
+                if len(args) != 1 or kwargs or args[0] is E.POISON:
+                    raise E.Unknown("itertools.chain.from_iterable on an undetermined value")
+                import itertools
+
+                return itertools.chain.from_iterable(args[0])
+
+            models = {"networkx.DiGraph": factory, "networkx.classes.digraph.DiGraph": factory, "networkx.freeze": lambda args, kwargs: args[0] if args else E.POISON, "itertools.chain.from_iterable": flatten}
             ev = _evaluator_class(E)(repo, tolerant=True, lib_models=models)
             try:
                 imports = _imports(ev, E, repo, pairs)
@@ -345,6 +358,8 @@ def hierarchy_on_models(repo: Repo, graph_cls: ClassInfo, modules_param: str, im
             g = graphs[0]
             if g.unreliable:
                 return None, g.unreliable
+            if len(modules) + sum(len(_prefixes(m)) for m in modules) >= 2 and not g.nodes and not g.edges:
+                return None, f"nothing reaches the model of the graph for the model input '{label}': the evaluator lost the construction on the way"
             want_nodes = set(modules)
             for m in modules:
                 want_nodes |= set(_prefixes(m))
